@@ -349,8 +349,8 @@ static std::string run_op(Tbl &t, const Op &o) {
     if (o.kind == "upsert") return t.upsert(o.a, [&](uint64_t &v) { v += o.b; }, o.b) ? "1" : "0";
     if (o.kind == "updatefn") return t.update_fn(o.a, [&](uint64_t &v) { v += o.b; }) ? "1" : "0";
     if (o.kind == "erasefn") return t.erase_fn(o.a, [&](uint64_t &v) { return v == o.b; }) ? "1" : "0";
-    if (o.kind == "rehash") { t.rehash(o.a); return "ok"; }
-    if (o.kind == "reserve") { t.reserve(o.a); return "ok"; }
+    if (o.kind == "rehash") return t.rehash(o.a) ? "1" : "0";
+    if (o.kind == "reserve") return t.reserve(o.a) ? "1" : "0";
     if (o.kind == "clear") { t.clear(); return "ok"; }
     if (o.kind == "section") {
       std::string r;
@@ -540,6 +540,41 @@ static ExecOut execute(uint64_t seed, int mode, int preempts, const std::vector<
         if (!(*it)[i].try_lock()) { out.ok = false; out.why = "lock (" + std::to_string(g) + "," + std::to_string(i) + ") is still held after all calls returned"; break; }
         (*it)[i].unlock();
       }
+  }
+  if (out.ok) {
+    // Explicit resize requests: rehash(n) / reserve(n) answer false exactly when the table already has the requested
+    // hashpower, true when they resized it.  Whatever the linearization point, the answer must be explained by a value the
+    // hashpower had between the call's invocation and its return (the timeline is read off the recorded stores, so no
+    // extra load disturbs the execution): false needs an instant at which hashpower() == request; true needs a store by
+    // the calling thread, within the call, of a hashpower at least as large as requested.
+    size_t hp0 = 0;
+    { std::istringstream is(g_init_line); std::string a, b; is >> a >> b >> hp0; }
+    for (auto &o : ops) {
+      if (o.op->kind != "rehash" && o.op->kind != "reserve") continue;
+      if (o.res != "0" && o.res != "1") continue;
+      size_t want = o.op->a;
+      if (o.op->kind == "reserve") { want = 0; while ((size_t(1) << want) * Tbl::slot_per_bucket() < o.op->a) ++want; }
+      size_t cur = hp0; bool eq = false, stored = false; std::string seen;
+      for (int i = 0; i <= o.resp && i < (int)S.trace.size(); ++i) {
+        auto &e = S.trace[i];
+        if (e.kind == EV_HP_STORE && e.a == 0) {
+          cur = e.v;
+          if (i >= o.inv && e.tid == o.tid && cur >= want) stored = true;
+        }
+        if (i >= o.inv) { if (cur == want) eq = true; if (seen.size() < 40) seen += std::to_string(cur) + " "; }
+      }
+      if (o.res == "0" && !eq) {
+        out.ok = false;
+        out.why = "explicit resize request dropped: T" + std::to_string(o.tid) + " " + o.op->kind + "(" + std::to_string(o.op->a) + ") answered false (nothing to do) although hashpower() was never " +
+                  std::to_string(want) + " between its invocation and its return - not linearizable";
+        break;
+      }
+      if (o.res == "1" && !stored) {
+        out.ok = false;
+        out.why = "explicit resize request not honoured: T" + std::to_string(o.tid) + " " + o.op->kind + "(" + std::to_string(o.op->a) + ") answered true without installing a table of hashpower >= " + std::to_string(want) + " - not linearizable";
+        break;
+      }
+    }
   }
   if (out.ok) {
     Map m;
